@@ -96,7 +96,7 @@ PROPS["C12"] = {
     "assumptions": ["driver definitions are well-formed (Spec.Dev.WF: valid states/permissions/rules, number formats of C10's family, distinct property names)"],
 }
 PROPS["C14"] = {
-    "suites": [("comp_dev", "gen_c14")],
+    "suites": [("comp_dev", "gen_c14"), ("comp_nested", "gen_cases")],
     "rule": "handler configurations 0-2 Write and 0-2 Change handlers per element, plain and coroutine, vetoing or not, on elements of every kind; write sequences with changing and "
             "unchanged values via client message, set_value() and direct assignment, on enabled and disabled properties; distinct by (device state, operation list)",
     "trusted_base": ["instrumented handlers record (id, event, payload, element._value); coroutine handlers run on a real asyncio loop after the operation"],
@@ -154,7 +154,7 @@ PROPS["C03"] = {
     "assumptions": ["carriage return and leading/trailing whitespace of text values are excluded (the property's own exclusions)"],
 }
 PROPS["C01"] = {
-    "suites": [("comp_sys", "gen_c01"), ("comp_sys", "gen_c01_lag")],
+    "suites": [("comp_sys", "gen_c01"), ("comp_sys", "gen_c01_lag"), ("comp_sys", "gen_c01_burst")],
     "rule": "whole deployments in one process: 1-3 generated drivers (1-3 groups, all five vector kinds, all switch rules, printf and sexagesimal formats, initially enabled/disabled groups "
             "and vectors, one driver optionally built through an inheritance chain of depth 2-3) + real Router + real server TCP handlers + fragmenting byte pipes (1024 / 1 byte / random) + "
             "real client handlers + Client (control + BLOB connection) and in-process SnoopingClients; random histories of driver operations (assign, set_value, state, enabling of "
@@ -173,7 +173,7 @@ PROPS["C06"] = {
     "assumptions": ["switch elements not named in the write may change under the property's rule (C09 decides how)"],
 }
 PROPS["C08"] = {
-    "suites": [("comp_sys", "gen_c08"), ("comp_num", "gen_b64")],
+    "suites": [("comp_sys", "gen_c08"), ("comp_sys", "gen_c08_burst"), ("comp_num", "gen_b64")],
     "rule": "byte strings of every length 0..39 and around the 1024-byte read size and the 2048-character threshold (thorough: every 13th length up to 3100, all of 700..800 and 1500..1560, "
             "100 kB and 1 MB), random contents and all 256 byte values, formats {.fits, .x, empty} x fragmentation {1024, 1, random} x clients {network (BLOB connection Only), network with "
             "Also on the control connection, in-process snooping client (Never)} x direction (driver publishes; client uploads), each followed by ordinary traffic that must still arrive; "
